@@ -1,11 +1,12 @@
 import Driver.Util
 import RxnModel.Model.Wal
+import RxnModel.Model.SstDoc
 /-!
 Driver section for C17. Stateful per case:
   SST:  `tbl <ents>` | `get k` | `rget k` | `scan p` | `rscan p` | `bloom k` | `run <target> <ents>` | `runok` | `sel i`
-        | `info` | `runinfo` | `rdoc` | `corrupt ver|trunc n` | `cget k` | `cscan p`
+        | `info` | `runinfo` | `rdoc` | `corrupt ver|trunc n` | `cget k` | `cscan p` | `saturate` | `sget k` | `docjson uri` | `rget2 k`
   WAL:  `wnew id max` | `wput k v seq` | `wdel k seq` | `wcut` | `wtrunc seq` | `wrot` | `wstate` | `wread after`
-        | `wreadhex <hex> after` | `wfile`
+        | `wreadhex <hex> after` | `wfile` | `wrotl` | `wsavel`
 Entries: comma separated `key/seq/del/val` (hex, `-` = empty); `-` alone = no entries.
 -/
 namespace Driver.C17
@@ -16,12 +17,16 @@ structure St where
   data : Bytes := []                   -- its file
   doc : Doc := docOf []
   fresh : Option Meta := none          -- metadata of the freshly written table
-  reopened : Option Meta := none       -- metadata loaded from the file via the document
+  rdocv : Option Doc := none           -- the document after its JSON round trip (`parseDoc ∘ jsonDoc`)
+  reopened : Option Meta := none       -- metadata loaded from the file via that document
+  sdata : Bytes := []                  -- the file with a saturated bloom block (every key "might be" there)
+  smeta : Option Meta := none
   cdata : Bytes := []                  -- a damaged copy of the file (outside the property: robustness only)
   cmeta : Option Meta := none
   chunks : List (List Entry) := []
   w : Wal.Writer := Wal.Writer.new 0 0
   saved : Bytes := []                  -- last saved WAL file
+  pending : Bytes := []                -- file of a rotated writer whose `Save` is still outstanding
 
 def parseEntry (s : String) : Entry :=
   match s.splitOn "/" with
@@ -48,7 +53,10 @@ def showDoc (d : Doc) (data : Bytes) : String :=
 def selectTable (st : St) (es : List Entry) : St :=
   let data := encTable es
   let doc := docOf es
-  { st with ents := es, data := data, doc := doc, fresh := some (metaOf es), reopened := openDoc doc data }
+  -- re-opening goes through the JSON form of the document, as a checkpoint does
+  let rd := (parseDoc (jsonDoc doc "memory:///000000.sst".toList)).map (·.1)
+  { st with ents := es, data := data, doc := doc, fresh := some (metaOf es), rdocv := rd,
+            reopened := rd.bind (fun d => openDoc d data) }
 
 def showRead (e : Wal.Read) : String :=
   s!"{toHex e.key}/{e.seq}/{if e.del then 1 else 0}/{toHex e.val}"
@@ -74,12 +82,28 @@ def step (st : St) : List String → St × String
   | ["tbl", es] => (selectTable st (parseEntries es), "ok")
   | ["info"] => (st, withMeta st.fresh fun _ => showDoc st.doc st.data)          -- M-obs: document and checksum of the whole file
   | ["get", k] => (st, withMeta st.fresh fun m => showGet (get m st.doc.entriesSize st.data (hexOr k)))
-  | ["rget", k] => (st, withMeta st.reopened fun m => showGet (get m st.doc.entriesSize st.data (hexOr k)))
+  | ["rget", k] => (st, withMeta st.reopened fun m =>
+      showGet (get m ((st.rdocv.map (·.entriesSize)).getD 0) st.data (hexOr k)))
+  | ["rget2", k] => (st, withMeta st.reopened fun m =>   -- two overlapping first reads answer like one
+      showGet (get m ((st.rdocv.map (·.entriesSize)).getD 0) st.data (hexOr k)))
+  | ["docjson", uri] => (st, withMeta st.fresh fun _ => String.ofList (jsonDoc st.doc uri.toList))
   | ["scan", p] => (st, withMeta st.fresh fun _ => match scanPrefix st.doc.entriesSize st.data (hexOr p) with
       | some es => showEntries es | none => "err")
-  | ["rscan", p] => (st, withMeta st.reopened fun _ => match scanPrefix st.doc.entriesSize st.data (hexOr p) with
+  | ["rscan", p] => (st, withMeta st.reopened fun _ =>
+      match scanPrefix ((st.rdocv.map (·.entriesSize)).getD 0) st.data (hexOr p) with
       | some es => showEntries es | none => "err")
-  | ["rdoc"] => (st, withMeta st.reopened fun _ => s!"{toHex st.doc.startKey} {toHex st.doc.endKey} {st.doc.size} {st.doc.entriesSize}")
+  | ["rdoc"] => (st, withMeta st.reopened fun _ => match st.rdocv with
+      | some d => s!"{toHex d.startKey} {toHex d.endKey} {d.size} {d.entriesSize} {d.startSeq} {d.endSeq}"
+      | none => "loaderr")
+  | ["saturate"] =>
+    -- the same file with every bit of the bloom block set: absent keys reach the index search and the scan
+    match st.fresh with
+    | none => (st, "loaderr")
+    | some m =>
+      let sat : Meta := ⟨{ m.bloom with words := m.bloom.words.map (fun _ => 2 ^ wordBits - 1) }, m.offsets⟩
+      let sdata := encEntries st.ents ++ encFooter sat st.doc.entriesSize
+      ({ st with sdata := sdata, smeta := openDoc st.doc sdata }, s!"size={sdata.length} fnv={(fnv64 sdata).toNat}")
+  | ["sget", k] => (st, withMeta st.smeta fun m => showGet (get m st.doc.entriesSize st.sdata (hexOr k)))
   | ["corrupt", kind, n] =>
     let cdata := if kind == "ver" then st.data.take (st.data.length - u32W) ++ leBytes u32W (natOr n)
                  else st.data.take (st.data.length - natOr n)
@@ -107,6 +131,8 @@ def step (st : St) : List String → St × String
   | ["wrot"] =>
     let saved := st.w.save
     ({ st with w := st.w.rotate, saved := saved }, "ok")
+  | ["wrotl"] => ({ st with w := st.w.rotate, pending := st.w.save }, "ok")   -- rotate now, save later
+  | ["wsavel"] => ({ st with saved := st.pending }, "ok")
   | ["wfile"] => (st, toHex st.saved)                  -- M-obs: bytes of the last saved file
   | ["wstate"] => (st, showWState st.w)
   | ["wread", a] => (st, showReadRes (Wal.readAll st.saved (natOr a)))
